@@ -24,7 +24,10 @@ import QuicProofs.Lemmas.FairRound
   class of the composed abstract model `Compose.FairRound` (all armed timers fire, then every transmittable
   frame is delivered and acknowledged); it says nothing about the schedules the real executor (tokio / bach,
   real timers, wake-up delivery) can produce.  That half of C02 is EXPLORATION by tie T
-  (`props/parts/C02_e2e.py`, `props/parts/C02_idletrace.py`), not proof.  Hence C02 is claimed PARTIAL.
+  (`props/parts/C02_e2e.py`, `C02_idletrace.py` — real idle closes replayed through `Conn.IdleTimer`,
+  `C02_recover.py` — no idle-out after the network recovered), not proof.  Hence C02 is claimed PARTIAL.
+  Ties of the models: G `Bridge/Timers.lean` (tools/extractors/timers.py); T idle-trace; D `C02_openwaiters.py`
+  (real `stream::Controller` vs `Conn.Wakers.OpenWaiters`, reproduces finding C02-F1 on the implementation).
 -/
 namespace Quic.Proofs.C02
 open Quic.Conn Quic.Sync
